@@ -40,6 +40,9 @@ func (g *Gen) Base() {
 	for k := 0; k < 3; k++ {
 		g.trade(1)
 		g.trade(2)
+		if k > 0 {
+			g.trade(3)
+		}
 		g.next(6)
 	}
 	g.next(13 * 3600) // epoch + farming queue
@@ -89,6 +92,7 @@ func (g *Gen) PadTo(h int64) {
 	}
 	g.trade(1)
 	g.trade(2)
+	g.trade(3)
 	g.next(6)
 	g.next(6)
 }
@@ -97,15 +101,18 @@ func (g *Gen) PadTo(h int64) {
 // order, a market order and market-making orders; cancels one older order.
 func (g *Gen) trade(pair uint64) {
 	base, quote := "uasset1", "uasset2"
+	last := d("1.0")
 	if pair == 2 {
 		base, quote = "ucmdx", "uasset3"
+	}
+	if pair == 3 {
+		base, quote, last = "uasset2", "ucmdx", d("2.0")
 	}
 	ctx := g.ctx()
 	p, found := g.C.App.LiquidityKeeper.GetPair(ctx, AppSwap, pair)
 	if !found {
 		return
 	}
-	last := d("1.0")
 	if p.LastPrice != nil {
 		last = *p.LastPrice
 	}
